@@ -608,7 +608,7 @@ func (r *runner) step() {
 		return
 	}
 	in := live[t.Choose(len(live))]
-	k := t.Weighted(5, 3, 3, 4, 3, 2, 2, 2, 2, 2, 2, 2, 2)
+	k := t.Weighted(5, 3, 3, 4, 3, 2, 2, 2, 2, 2, 2, 2, 2, 1)
 	switch k {
 	case 0: // write cell from guest
 		c, v := t.Choose(nCells), int32(1000+t.Choose(100000))
@@ -761,6 +761,48 @@ func (r *runner) step() {
 		if got := int32(uint32(res[0])); got != want {
 			r.res.Fail("view-diverged", "m%d.xtab_grow() (table.grow in the table owner's function, then table.size in the caller) = %d, model expects %d (old size %d)", in.idx, got, want, old)
 		}
+	case 13: // close an instance nobody imports from: every other instance must be unaffected
+		var leaves []*inst
+		for _, c := range live {
+			used := false
+			for _, o := range live {
+				if o == c {
+					continue
+				}
+				sp := r.specs[o.idx]
+				if sp.memFrom == c.idx || sp.tabFrom == c.idx {
+					used = true
+				}
+				for _, g := range sp.gFrom {
+					if g == c.idx {
+						used = true
+					}
+				}
+				for _, f := range sp.impFn {
+					if f == c.idx {
+						used = true
+					}
+				}
+			}
+			if !used {
+				leaves = append(leaves, c)
+			}
+		}
+		if len(leaves) == 0 || len(live) < 2 {
+			return
+		}
+		c := leaves[t.Choose(len(leaves))]
+		// table slots holding the closed instance's functions are not called any more (C09's business)
+		for i := range c.tab.slots {
+			if c.tab.slots[i].inst == c.idx {
+				r.call(c, "tab_isnull", uint64(i)) // no-op; keep the slot, but stop calling it
+				c.tab.slots[i].inst = -2
+			}
+		}
+		err := c.mod.Close(r.ctx)
+		r.log("close m%d (a leaf: nobody imports from it) err=%v", c.idx, err)
+		r.res.Stat("fault.close_leaf_instance", 1)
+		r.insts[c.idx] = nil
 	case 12: // a callee in ANOTHER instance grows ITS table (which may not be ours); we then look at ours
 		if len(in.imps) == 0 {
 			return
@@ -889,6 +931,9 @@ func (r *runner) checkAll(after string) {
 		}
 		for _, s := range []int{t.Choose(len(in.tab.slots)), t.Choose(len(in.tab.slots))} {
 			ref := in.tab.slots[s]
+			if ref.inst == -2 {
+				continue // function of a closed instance: lifetime questions belong to C09
+			}
 			res, err := r.call(in, "tab_call", uint64(s), 7)
 			if ref.inst < 0 {
 				if err == nil || !strings.Contains(err.Error(), "invalid table access") {
